@@ -40,6 +40,13 @@ CLAIMED = {
         note=TB + "; (M1) divergence theorem and (M2) Dirichlet formula are mathematical assumptions linking per-triangle flux identities to solid integrals; sums over the symbolic axis are opaque with extensionality+scaling only.",
         technique="contract-based deductive verification: lambda-array symbolic execution of the unmodified source (unbounded triangle count), VCs discharged by z3/cvc5",
     ),
+    "C09": dict(
+        category="proof",
+        text="Inductive proof of the scene-graph representation invariant and of `get = product of the current edge matrices along the path` on the mirrored source of SceneGraph/EnforcedForest: from every abstract pre-state (every forest shape over four named frames plus a fresh one, caches empty / fully populated / base-frame only / hash only) every mutator (update of an edge by matrix or translation, __setitem__, unchanged update, geometry change, add leaf under every node, re-parent to every admissible node, remove_node of every node, base_frame change, remove_geometries, clear) is applied with fresh SYMBOLIC affine matrices (12 reals per edge, so all real matrices at once); afterwards the real fields equal the ghost view (edge keys, parents, nodes, hash memo absent-or-current, path cache current) and every query - all ordered pairs, base-frame form, nodes, geometry maps, children, successors, to_flattened, to_edgelist/from_edgelist - equals the spec on the new view. The identity filter of get (factors within 1e-8 of I dropped) is explored on every path for all ordered pairs of every shape. kwargs_to_matrix (precedence, quaternion / axis-angle / translation content) and fix_rigid outside its repair band are proved for all real inputs. Forest shape (4+1 frames) is a stated bound; matrices and histories are not bounded.",
+        design_ref="DESIGN.md §4 C09",
+        note=TB + "; numpy.linalg.inv is an uninterpreted function (assumed contract); the algebraic laws T(a,a)=I, T(a,b)T(b,a)=I, T(a,c)=T(a,b)T(b,c) follow from the product spec by matrix algebra and are only evaluated numerically in the bounded tier; symbolic tier runs repair_rigid=None, the default is covered by seeded random histories on the real classes.",
+        technique="contract-based deductive verification of a representation invariant (ghost abstract view, per-operation preservation from arbitrary invariant states on the mirrored source, symbolic matrices, z3) + bounded random histories on the real classes",
+    ),
     "C19": dict(
         category="proof",
         text="Every obligation generated from the current source of trimesh/transformations.py (rotation_matrix, quaternion_*, euler_* for all 24 conventions, compose/decompose, transform_points, planar/scale/translate helpers) is discharged by z3/cvc5 for all real inputs: orthonormality, det=+1, round trips, representation agreement, fixed points. Fixed-size matrices, so no bound on inputs.",
